@@ -140,7 +140,10 @@ def handle (j : Json) : Except String Json := do
         | 6 => HOp.setPixel key (a.getD 3 0) (a.getD 4 0) d
         | 7 => HOp.fill key d
         | 8 => HOp.setFmt (n 0)
-        | _ => HOp.setLowFmt (n 0))
+        | 9 => HOp.setLowFmt (n 0)
+        | 10 => HOp.copyFrame key (n 3, n 4, n 5)
+        | 11 => HOp.touch key
+        | _ => HOp.rescale key (n 3, n 4, n 5) (n 6))
     pure (Json.mkObj [("saves", Json.arr ((runHistory v ops).map fun r => match r with
       | .ok bs => Json.mkObj [("bytes", jl bs)]
       | .error e => errJson e).toArray)])
